@@ -1285,6 +1285,7 @@ impl<'a> Query<'a> {
         match querystring.split(QUERYSPLITCHARS).next() {
             Some("WHERE") => querystring = querystring["WHERE".len()..].trim_start(),
             Some("{") | Some("") | None => {} //no-op (select all, end of query, no where clause)
+            Some(x) if x.starts_with('}') || x.starts_with('|') => {} //no-op (end of this subquery, no where clause)
             _ => {
                 return Err(StamError::QuerySyntaxError(
                     format!(
@@ -1813,7 +1814,7 @@ impl<'a> Query<'a> {
                 s.push(' ');
                 s += &subquery.to_string()?;
             }
-            s += "}";
+            s += "\n}";
         }
         Ok(s)
     }
